@@ -811,6 +811,40 @@ class VersionPackage(BaseVersion):
         """Return the version number of dev part if it was set."""
         return self._extract_letter(self.dev)[1] if self.dev else None
 
+    def bump_epoch(self) -> Self:
+        """Raise the epoch part of the packaging version, return a new object.
+
+        :rtype: Self
+        :returns: A new object with the raised epoch part.
+        """
+        return self.__class__(self.epoch + 1)
+
+    def bump_major(self) -> Self:
+        """Raise the major part of the packaging version and keep its epoch.
+
+        :rtype: Self
+        :returns: A new object with the raised major part.
+        """
+        return self.__class__(self.epoch, self.major + 1)
+
+    def bump_minor(self) -> Self:
+        """Raise the minor part of the packaging version and keep its epoch.
+
+        :rtype: Self
+        :returns: A new object with the raised minor part.
+        """
+        return self.__class__(self.epoch, self.major, self.minor + 1)
+
+    def bump_patch(self) -> Self:
+        """Raise the patch part of the packaging version and keep its epoch.
+
+        :rtype: Self
+        :returns: A new object with the raised patch part.
+        """
+        return self.__class__(
+            self.epoch, self.major, self.minor, self.patch + 1
+        )
+
     def bump_pre(self, token: str | None = "rc") -> Self:
         """Raise the pre part of the packaging version, return a new object.
 
@@ -903,15 +937,33 @@ class VersionPackage(BaseVersion):
                 f"Invalid part. Expected one of {valid_parts}, but got {part!r}"
             )
         version = self
-        if (version.pre or version.post or version.dev or version.local) and (
+        # NOTE: a pre-release, and a dev-release that is not a dev-release of
+        #   a post-release, sort before the final release of their numbers;
+        #   a post-release or a local version sort after it.
+        before_final: bool = bool(version.pre) or (
+            bool(version.dev) and not version.post
+        )
+        if before_final and (
             part == "patch"
             or (part == "minor" and version.patch == 0)
             or (part == "major" and version.minor == version.patch == 0)
         ):
             return version.replace(pre=None, post=None, dev=None, local=None)
+        if part in ("pre", "post", "dev"):
+            # NOTE: a segment without a number means number 0, write it down
+            #   so that the increment has a number to raise.
+            segment: str | None = getattr(version, part)
+            if segment and not re.search(r"\d", segment):
+                version = version.replace(**{part: f"{segment}0"})
         if part == "pre":
+            if not before_final:
+                version = version.bump_patch()
             return version.bump_pre(pre_token)
-        return getattr(version, "bump_" + part)
+        if part == "dev" and not version.dev:
+            # NOTE: the first dev-release of the next patch, because a
+            #   dev-release of this version sorts before this version.
+            version = version.bump_patch()
+        return getattr(version, "bump_" + part)()
 
     def __str__(self) -> str:
         """Return the full version that joining in string format."""
